@@ -271,3 +271,33 @@ extern "C" void h_pid_exhaustion(void) {
   vk_assert(w.ops[c].done == 1 && w.ops[c].ec == 103, "a request made while all identifiers are in use again did not end with pid_overrun");
   vk_reach("recovered");
 }
+
+// cancel() called from inside the async_receive handler while more input is buffered behind the delivered message: a DISCONNECT of
+// the broker in the same read. (Layered stream, io_context-like executor: the handler runs inside the loop that parses the buffer.)
+extern "C" void h_cancel_in_receive(void) {
+  W* wp = new W(); W& w = *wp;
+  w.start(); w.connect_ok();
+  int got = 0;
+  w.in_api = true; w.c.async_receive([&got, &w](error_code, std::string, std::string, publish_props) { got++; w.c.cancel(); }); w.in_api = false;
+  vk::drain();
+  // (a QoS 0 message: it is handed over as soon as it is parsed; a QoS 1 message waits for the PUBACK write, which the DISCONNECT pre-empts)
+  uint8_t payload = vk_sym_u8();
+  w.publish_to_client("t", 1, &payload, 1, 0, false, 0);
+  bool buffered = vk_choose(2);
+  if (buffered) { ref::wr o = w.outw(); ref::enc_disconnect(o, 0x8B); w.commit(o); vk_reach("disconnect-buffered-behind-the-message"); }
+  w.feed_all(); vk::drain();
+  for (int g = 0; g < 8; g++) {
+    if (w.shutdown_pending()) w.finish_shutdown();
+    if (auto* s = vk::pending_write()) { w.finish_write(s, s->wdata.size(), {}); vk::drain(); }
+    vk::timer_rec* best = nullptr; for (auto* t : vk::world().timers) if (t->armed && vk::timer_can_fire(t)) { best = t; break; }
+    if (!best) break; vk::timer_fire(best); vk::drain();
+  }
+  vk_assert(got == 1, "the message is handed to async_receive exactly once");
+  if (buffered) vk_assert(w.run_done == 1, "async_run did not complete after cancel() was called from the async_receive handler while a DISCONNECT of the broker was buffered behind the delivered message");
+  else vk_assert(w.run_done == 1, "async_run did not complete after cancel() was called from the async_receive handler");
+  if (w.run_done == 1) {
+    vk_assert(all_quiet() && !vk::pending_read() && !vk::pending_write() && !vk::pending_connect() && !vk::pending_resolve(), "work is left after cancel() was called from the async_receive handler");
+    for (auto* t : vk::world().timers) vk_assert(!t->armed, "a timer is still armed after cancel() was called from the async_receive handler");
+  }
+  vk_reach("cancelled-in-receive-handler");
+}
